@@ -41,11 +41,13 @@ def run_lo(facts, samples, k, threads=1, missing=0.1, reference=None):
     return {p: ''.join(c.v.fields[1]) for p, c in I.out_files.items()}
 
 
-def ancestor(L, k, rng, extra=()):
+def ancestor(L, k, rng, extra=(), plant=None):
     """random sequence whose (k-1)-mers - and those of every single-site / indel variant listed in `extra` (a function giving the
     variant sequences) - are unique on both strands"""
     for _ in range(5000):
         s = ''.join(rng.choice('ACGT') for _ in range(L))
+        if plant is not None:
+            s = plant(s, rng)
         seqs = [s] + list(extra(s)) if extra else [s]
         seen = {}
         ok = True
@@ -103,7 +105,17 @@ def check_snps(facts, chk, rule, tier):
                     if b != s[st]:
                         out.append(s[:st] + b + s[st + 1:])
             return out
-        anc = ancestor(L, k, rng, variants)
+        plant = None
+        if case == 2:
+            # the k bases before the first (outermost) site form a split k-mer whose arms are reverse complements of each other (stored with an
+            # ambiguous S / W middle base and expanded twice in the graph): still within the property's domain - its (k-1)-mers are unique
+            h = (k - 1) // 2
+
+            def plant(s_, rng_, st=sites[0], h=h):
+                x = ''.join(rng_.choice('ACGT') for _ in range(h))
+                w = x + rng_.choice('ACGT') + rcs(x)
+                return s_[:st - len(w)] + w + s_[st:]
+        anc = ancestor(L, k, rng, variants, plant)
         # allele assignment: every site gets 2 alleles over the samples, every sample differs from the ancestor at most at all sites
         combos = []
         for st in sites:
